@@ -102,6 +102,37 @@ class DFrozenSlotsNonInit:     # both
     y: object = dataclasses.field(default=None, init=False)
 
 
+# containers that are falsy by their own __bool__ / __len__ although their fields hold values: used by the
+# scheduler-level oracle only ("empty" must be judged by the container dispatch, never by truthiness)
+@dataclasses.dataclass
+class DFalsy:
+    ok: object
+    payload: object = None
+
+    def __bool__(self):
+        return False
+
+
+@dataclasses.dataclass
+class DLen:
+    items: object
+    summary: object = None
+
+    def __len__(self):
+        return 0
+
+
+class NTFalsy(typing.NamedTuple):
+    a: object
+    b: object = None
+
+    def __bool__(self):
+        return False
+
+
+SCHED_DCS = {"DFalsy": DFalsy, "DLen": DLen}
+SCHED_NTS = {"NTFalsy": NTFalsy}
+
 NT_CLASSES = {"NT1": NT1, "NT2": NT2, "NT3": NT3}
 NT_IDS = {"NT1": 1, "NT2": 2, "NT3": 3}
 DC_CLASSES = {c.__name__: c for c in (DPlain, DNonInit, DPost, DFrozen, DIdent, DKw, DGeneric, DFrozenNonInit, DSlots,
@@ -223,13 +254,13 @@ def kind(v):
         return "list"
     if t is tuple:
         return "tuple"
-    if t in NT_CLASSES.values():
+    if t in NT_CLASSES.values() or t in SCHED_NTS.values():
         return "nt"
     if t is set:
         return "set"
     if t is dict:
         return "dict"
-    if t in DC_CLASSES.values():
+    if t in DC_CLASSES.values() or t in SCHED_DCS.values():
         return "dc"
     return "leaf"
 
@@ -736,12 +767,16 @@ class Check(PropertyCheck):
             return ["I", counter[0], r.choice(["plain", "task", "task", "value"])]
         if depth <= 0 or r.random() < 0.25:
             return leaf()
-        k = r.choice(["list", "tuple", "nt", "set", "dict", "dc"])
-        n = r.choice([1, 2, 3])
+        k = r.choice(["list", "tuple", "nt", "set", "dict", "dc", "dc", "falsy"])
+        n = r.choice([0, 1, 2, 3]) if k in ("list", "tuple", "dict") else r.choice([1, 2, 3])
         if k in ("list", "tuple"):
             return [k, [self.sched_spec(depth - 1, counter) for _ in range(n)]]
         if k == "nt":
             return ["nt", "NT2", [self.sched_spec(depth - 1, counter) for _ in range(2)]]
+        if k == "falsy":
+            name = r.choice(["DFalsy", "DLen", "NTFalsy"])
+            kids = [self.sched_spec(depth - 1, counter) for _ in range(2)]
+            return ["nt", name, kids] if name == "NTFalsy" else ["dc", name, kids, False]
         if k == "set":
             return ["set", [leaf() for _ in range(n)]]
         if k == "dict":
@@ -769,14 +804,26 @@ class Check(PropertyCheck):
             finally:
                 logging.disable(logging.NOTSET)
             done = 0
-            for i in range(runs):
-                spec = self.sched_spec(self.rng.randint(1, 4), [0])
-                why = self.check_sched(sched, spec, i)
+            # targeted: a value that is falsy by its own __bool__ / __len__ while a field holds an expression, as the
+            # task's direct result and as the direct argument of Scheduler.run (seeded change C19c)
+            targeted = [(["dc", "DFalsy", [["I", 1, "plain"], ["I", 2, "task"]], False], m) for m in ("direct", "arg")]
+            targeted += [(["dc", "DLen", [["list", []], ["I", 3, "task"]], False], m) for m in ("direct", "arg")]
+            targeted += [(["nt", "NTFalsy", [["I", 4, "task"], ["I", 5, "value"]]], m) for m in ("direct", "arg")]
+            targeted += [(["list", []], "direct"), (["dict", []], "arg"), (["tuple", []], "direct")]
+            for i in range(runs + len(targeted)):
+                if i < len(targeted):
+                    spec, mode = targeted[i]
+                else:
+                    spec = self.sched_spec(self.rng.randint(1, 4), [0])
+                    mode = self.rng.choice(["wrap", "wrap", "direct", "arg"]) if spec[0] != "set" else "wrap"
+                why = self.check_sched(sched, spec, i, mode)
                 done += 1
                 self.stat("scheduler_runs", "violations" if why else "ok")
+                self.stat("scheduler_mode", mode)
+                self.stat("scheduler_top_kind", spec[1] if spec[0] in ("dc", "nt") else spec[0])
                 if why:
-                    self.findings.append(Finding(f"sched:{json.dumps(spec)}"[:300], why,
-                                                 {"kind": "sched", "spec": spec}))
+                    self.findings.append(Finding(f"sched:{mode}:{json.dumps(spec)}"[:300], why,
+                                                 {"kind": "sched", "spec": spec, "mode": mode}))
             self.evaluations += done
             return done
         finally:
@@ -785,7 +832,9 @@ class Check(PropertyCheck):
             shutil.rmtree(tmp, ignore_errors=True)
 
     @staticmethod
-    def check_sched(sched, spec, salt):
+    def check_sched(sched, spec, salt, mode="wrap"):
+        """mode: wrap = the task returns [value]; direct = the task returns the value itself; arg = the value (with
+        its nested expressions) is the direct argument of Scheduler.run"""
         import contextlib
         import io
         import logging
@@ -798,20 +847,25 @@ class Check(PropertyCheck):
                 c = {"list": list, "tuple": tuple, "set": set}[s[0]]
                 return c(want(x) for x in s[1])
             if s[0] == "nt":
-                return NT_CLASSES[s[1]](*[want(x) for x in s[2]])
+                return {**NT_CLASSES, **SCHED_NTS}[s[1]](*[want(x) for x in s[2]])
             if s[0] == "dict":
                 return {want(k): want(x) for k, x in s[1]}
             return build_dc(s[1], [want(x) for x in s[2]])
         logging.disable(logging.CRITICAL)
         try:
             with contextlib.redirect_stderr(io.StringIO()), contextlib.redirect_stdout(io.StringIO()):
-                got = sched.run(main(json.dumps(spec), salt))
+                if mode == "arg":
+                    got = sched.run(sched_mk(spec))
+                else:
+                    got = sched.run(main(json.dumps(spec), salt, mode == "wrap"))
         except Exception as e:  # noqa
             return f"evaluating a nested value with expressions raised {type(e).__name__}: {e}"
         finally:
             logging.disable(logging.NOTSET)
-        if sched_canon(got) != sched_canon([want(spec)]):
-            return f"nested expressions were not all replaced by their results: got {got!r}"[:400]
+        expect = [want(spec)] if mode == "wrap" else want(spec)
+        if sched_canon(got) != sched_canon(expect):
+            return (f"nested expressions were not all replaced by their results ({mode}): got {got!r}, "
+                    f"expected {expect!r}")[:500]
         return None
 
     # ---------------------------------------------------------------- replay
@@ -831,7 +885,7 @@ class Check(PropertyCheck):
                 from redun.config import Config
                 sched = Scheduler(config=Config({"backend": {"db_uri": "sqlite:///:memory:"}}))
                 sched.load()
-                why = self.check_sched(sched, r["spec"], 0)
+                why = self.check_sched(sched, r["spec"], 0, r.get("mode", "wrap"))
             finally:
                 os.chdir(cwd)
             print("replay:", why or "property holds on this value now")
@@ -862,23 +916,30 @@ def sched_tasks():
             c = {"list": list, "tuple": tuple, "set": set}[s[0]]
             return c(mk(x) for x in s[1])
         if s[0] == "nt":
-            return NT_CLASSES[s[1]](*[mk(x) for x in s[2]])
+            return {**NT_CLASSES, **SCHED_NTS}[s[1]](*[mk(x) for x in s[2]])
         if s[0] == "dict":
             return {mk(k): mk(x) for k, x in s[1]}
         return build_dc(s[1], [mk(x) for x in s[2]])
 
     @task(name="c19_main", namespace="verif", cache=False)
-    def main(spec_json, salt):
-        # wrapped in a list: redun hashes a task's raw result, and its hash of a top-level `set`
+    def main(spec_json, salt, wrap=True):
+        # wrapped in a list by default: redun hashes a task's raw result, and its hash of a top-level `set`
         # sorts the elements (TypeError for two Expressions, as for {1, "a"}) -- value hashing, not C19
-        return [mk(json.loads(spec_json))]
+        v = mk(json.loads(spec_json))
+        return [v] if wrap else v
 
     _TASKS.append(main)
+    _TASKS.append(mk)
     return main
 
 
+def sched_mk(spec):
+    sched_tasks()
+    return _TASKS[1](spec)
+
+
 def build_dc(name, vals):
-    cls = DC_CLASSES[name]
+    cls = DC_CLASSES.get(name) or SCHED_DCS[name]
     fs = dc_fields(cls)
     obj = cls(**{f.name: v for f, v in zip(fs, vals) if f.init})
     for f, v in zip(fs, vals):
